@@ -7,7 +7,9 @@ package helper
 
 import (
 	"fmt"
+	"math/rand"
 	"sync"
+	"time"
 
 	appsv1 "k8s.io/api/apps/v1"
 	metav1 "k8s.io/apimachinery/pkg/apis/meta/v1"
@@ -43,9 +45,20 @@ func (s *vSource) Stop() {
 
 func (s *vSource) ResultChan() <-chan watch.Event { return s.ch }
 
+// vJitter widens, in native runs only, the set of interleavings the Go
+// scheduler produces (under the engine every interleaving within the
+// preemption bound is explored anyway): a violation that depends on the
+// schedule is confirmed natively by replaying its inputs repeatedly.
+func vJitter() {
+	if !sym.IsSymbolic() {
+		time.Sleep(time.Duration(rand.Intn(600)) * time.Microsecond)
+	}
+}
+
 func (s *vSource) run(events []watch.Event) {
 	defer close(s.ch)
 	for _, e := range events {
+		vJitter()
 		select {
 		case s.ch <- e:
 		case <-s.stopCh:
@@ -128,6 +141,9 @@ func VH_Watch(a []int) {
 		} else {
 			sym.Disc("consumer-stops-early")
 		}
+	}
+	if !settled {
+		vJitter()
 	}
 	for k := 0; k < S; k++ {
 		w.Stop()
